@@ -70,6 +70,13 @@ def risky_families():
         ("neg:poly", ["neg", ["bin", "**", _a, ["raw", 3, "int"]]]),
         ("fn:poly-arg", ["fn", "abs", ["bin", "*", _a, ["raw", 0, "int"]]]),
         ("par:coef", ["bin", "*", ["par", "p"], _a]),
+        ("par:exponent-of-variable", ["bin", "+", ["bin", "**", _a, ["par", "p"]], ["bin", "*", ["raw", 2, "int"], _b]]),
+        ("par:exponent-of-sum", ["bin", "**", ["bin", "+", _a, _b], ["par", "p"]]),
+        ("pel:exponent", ["bin", "*", ["bin", "**", _a, ["pel", "r", 0]], _b]),
+        ("par:coefficient-of-square", ["bin", "+", ["bin", "*", ["par", "p"], ["bin", "**", _a, ["raw", 2, "int"]]], _b]),
+        ("pinned:fixed-times-free", ["bin", "*", _a, _b]),
+        ("pinned:fixed-cubed-plus-free", ["bin", "+", ["bin", "**", _a, ["raw", 3, "int"]], _b]),
+        ("pinned:square-of-sum-times-fixed", ["bin", "*", ["bin", "**", ["bin", "+", _a, _b], ["raw", 2, "int"]], ["var", "x2"]]),
         ("msum:mat", ["msum", ["mat", "A"]]),
         ("msum:sq", ["msum", ["mbin", "**", ["mat", "A"], ["raw", 2, "int"]]]),
         ("trace", ["trace", ["mat", "G"]]),
@@ -86,6 +93,17 @@ def risky_families():
         ("sumsq", ["sum", ["vbin", "-", ["vpow", _xe, 2], _y]]),
     ]
     return F
+
+
+def pinned_decls(decls):
+    """every variable container declared with coinciding bounds"""
+    import copy
+
+    out = copy.deepcopy(decls)
+    for k, d in enumerate(out):
+        if d["k"] in ("var", "vec", "mat"):
+            d["lb"] = d["ub"] = [2.0, -1.0, 0.5, 1.0][k % 4]
+    return out
 
 
 class PrequeryBuilder(B.Builder):
@@ -244,6 +262,31 @@ def run_case(case, rec, rng):
             if not any_finite:
                 rec.cmp(1, f"{fam}|{cellroute}")
                 rec.paths[f"reported-degree:None|{cellroute}"] += 1
+            # the same expression objects classified again after Parameter.set(): an answer that was read off the parameter's value
+            # (an exponent, a zero coefficient) and memoised must not survive the update
+            if b.params and case.get("after_set") and any(x[0] in ("par", "pel", "vparv", "dotP") for x in A.walk(node)):
+                newvals = case["after_set"]
+                try:
+                    for pn, nv in newvals.items():
+                        if pn in b.params:
+                            b.params[pn].set(nv)
+                    obs2 = [("compute_degree", AN.compute_degree(e)), ("Expression.degree", e.degree),
+                            ("is_linear", 1 if AN.is_linear(e) else None), ("is_quadratic", 2 if AN.is_quadratic(e) else None),
+                            ("Problem._is_linear_problem", 1 if optyx.Problem().minimize(e)._is_linear_problem() else None)]
+                except Exception as ex:
+                    bad(cellroute, "raises-after-set:" + type(ex).__name__, None, ex=ex)
+                    continue
+                D2 = R.Decls(X.with_param_values(decls, newvals))
+                for route, d in obs2:
+                    if d is None:
+                        continue
+                    v2 = exceeds_degree(rng, D2, node, names, int(d)) if names else None
+                    rec.cmp(1, f"{fam}|{cellroute}")
+                    rec.events["after-set-classifications"] += 1
+                    if v2:
+                        rec.violation(f"{cellroute.replace('-prequeried', '')}:under-reports-after-Parameter.set", {
+                            "case": case, "route": f"{cellroute}:{route}", "reported": int(d), "set": newvals, "show": show})
+                        break
         finally:
             AN._RECURSION_THRESHOLD = old
     for trav, lst in under.items():
@@ -259,6 +302,15 @@ def run(ctx, rec):
         i += 1
         if ctx.mine(i):
             run_case({"decls": X.D0, "node": node, "family": fam}, rec, rng)
+            if i % 3 == 0 or fam.startswith(("mul:", "bilinear:", "pow:", "mel", "el")):
+                # the same formula over variables whose bounds coincide (lb == ub): still variables of the expression
+                rec.events["pinned-bounds-cases"] += 1
+                run_case({"decls": pinned_decls(X.D0), "node": node, "family": fam, "pinned": True}, rec, rng)
+            if any(x[0] in ("par", "pel", "vparv", "dotP") for x in A.walk(node)):
+                for k_, (v0, v1) in enumerate([(1.0, 2.0), (0.0, 3.0), (2.0, 0.5)]):
+                    d0 = X.with_param_values(X.D0, {"p": v0, "r": [v0, 1.0, v0]})
+                    rec.events["parameter-reclassification-cases"] += 1
+                    run_case({"decls": d0, "node": node, "family": fam, "after_set": {"p": v1, "r": [v1, 2.0, v1]}}, rec, rng)
             if i % 2 == 0:
                 # the family node occurring several times as ONE shared object: polynomial DAG forms t*t + t and (t+1)*(t+1) - (t+1)
                 t = node
